@@ -270,18 +270,53 @@ pub fn run_scenario(sc: &Value, dir: &str) -> Vec<Value> {
                 let threads = st["threads"].as_u64().unwrap_or(8) as usize;
                 let each = st["each"].as_u64().unwrap_or(200) as usize;
                 let before = sh.quick.load(Ordering::SeqCst);
+                // "both": odd client threads use listener b (UDS or the second TCP listener);
+                // "toggle_ms": meanwhile the server is paused and resumed every that many milliseconds (ends resumed)
+                let both = st["both"].as_bool().unwrap_or(false);
+                let toggle_ms = st["toggle_ms"].as_u64().unwrap_or(0);
+                let stop_toggle = Arc::new(AtomicBool::new(false));
+                let toggler = (toggle_ms > 0).then(|| {
+                    let h = handle.clone();
+                    let stop = stop_toggle.clone();
+                    thread::spawn(move || {
+                        let rt = tokio::runtime::Builder::new_current_thread().enable_all().build().unwrap();
+                        let mut n = 0u64;
+                        while !stop.load(Ordering::SeqCst) {
+                            rt.block_on(h.pause());
+                            thread::sleep(Duration::from_millis(toggle_ms));
+                            rt.block_on(h.resume());
+                            thread::sleep(Duration::from_millis(toggle_ms));
+                            n += 1;
+                        }
+                        rt.block_on(h.resume());
+                        n
+                    })
+                });
                 let hs: Vec<_> = (0..threads)
-                    .map(|_| {
+                    .map(|t| {
+                        let upath = uds_path.clone();
+                        let to_b = both && t % 2 == 1;
                         thread::spawn(move || {
                             let mut sent = 0usize;
                             for _ in 0..each {
-                                if let Ok(mut s) = StdTcpStream::connect_timeout(&addr_a, Duration::from_secs(3)) {
+                                let mut b = [0u8; 1];
+                                if to_b && uds {
+                                    if let Ok(mut s) = StdUnixStream::connect(&upath) {
+                                        if s.write_all(&[QUICK]).is_ok() {
+                                            sent += 1;
+                                        }
+                                        let _ = s.set_read_timeout(Some(Duration::from_millis(2000)));
+                                        let _ = std::io::Read::read(&mut s, &mut b);
+                                    }
+                                    continue;
+                                }
+                                let addr = if to_b { addr_b.unwrap_or(addr_a) } else { addr_a };
+                                if let Ok(mut s) = StdTcpStream::connect_timeout(&addr, Duration::from_secs(3)) {
                                     if s.write_all(&[QUICK]).is_ok() {
                                         sent += 1;
                                     }
                                     // wait for the server to close (the service is done): keeps the number of open sockets small
                                     let _ = s.set_read_timeout(Some(Duration::from_millis(2000)));
-                                    let mut b = [0u8; 1];
                                     let _ = std::io::Read::read(&mut s, &mut b);
                                 }
                             }
@@ -290,6 +325,10 @@ pub fn run_scenario(sc: &Value, dir: &str) -> Vec<Value> {
                     })
                     .collect();
                 let sent: usize = hs.into_iter().map(|h| h.join().unwrap_or(0)).sum();
+                stop_toggle.store(true, Ordering::SeqCst);
+                if let Some(t) = toggler {
+                    res["toggles"] = json!(t.join().unwrap_or(0));
+                }
                 let ok = wait_until(Duration::from_secs(5), || sh.quick.load(Ordering::SeqCst) >= before + sent);
                 res["sent"] = json!(sent);
                 res["served"] = json!(sh.quick.load(Ordering::SeqCst) - before);
